@@ -972,7 +972,7 @@ def _threads(ctx: Ctx, rng: SimRng) -> None:
         if ctx.cfg.get("_isolate"):
             # the sequential truth comes from a process of its own, so that the threads below are the first
             # callers this process sees: a table or memo a sequential first call would have built is still to build
-            base, est = _in_child(sequential)
+            base, est = _in_child(ctx, sequential, ch.draw(2**32, "baseline.seed"))
         else:
             base, est = sequential()
         ctx.log("baseline", n_thr, est)
@@ -1075,10 +1075,15 @@ def _threads(ctx: Ctx, rng: SimRng) -> None:
         undo()
 
 
-def _in_child(fn: Callable[[], Any]) -> Any:
-    """fn() computed by a forked child; what the child did to its copy of the process dies with it."""
+def _in_child(ctx: Ctx, fn: Callable[[], Any], seed: int) -> Any:
+    """fn() computed by a forked child; what the child did to its copy of the process dies with it.
+    The child's draws (the RNG seam under the library) come from a sequence of its own, seeded by one
+    recorded draw of the parent: they are not part of the run's choice sequence, and a replay or a
+    shrunk candidate must not spend the recorded values on them."""
     import os  # noqa: PLC0415
     import pickle  # noqa: PLC0415
+
+    from btcsim.core.choices import Choices  # noqa: PLC0415
 
     rfd, wfd = os.pipe()
     pid = os.fork()
@@ -1086,10 +1091,15 @@ def _in_child(fn: Callable[[], Any]) -> Any:
         code = 1
         try:
             os.close(rfd)
+            ctx.ch = Choices(seed=seed)
             try:
                 payload: Any = ("ok", fn())
             except RunAborted as e:
                 payload = ("aborted", str(e))
+            except BaseException as e:  # noqa: BLE001
+                import traceback  # noqa: PLC0415
+
+                payload = ("aborted", "baseline process: " + "".join(traceback.format_exception(e))[-600:])
             with os.fdopen(wfd, "wb") as f:
                 f.write(pickle.dumps(payload))
             code = 0
